@@ -79,6 +79,11 @@ if __name__ == '__main__':
     r = dict(property=pid)
     if os.environ.get('SEED_SKIP_CONFIRM') != '1':
         r['confirm'] = confirm(pid, d)
+    else:
+        try:
+            r['confirm'] = json.load(open(os.path.join(d, 'result.json'))).get('confirm')
+        except (OSError, ValueError):
+            pass
     r['checks'] = run_checks(pid, d, tiers)
     print(json.dumps(r, indent=1))
     with open(os.path.join(d, 'result.json'), 'w') as f:
